@@ -34,6 +34,8 @@ package validate
 //@ func (Validator) typeOfExpr
 //@   pure
 //@   trusted
+//@   results t, outCaps, err
+//@   ensures caps_wf: (!isnil(caps) && capOK(caps)) ==> (!isnil(outCaps) && capOK(outCaps))
 //@ func compareCedarType
 //@   pure
 //@   trusted
@@ -165,3 +167,11 @@ package validate
 //@   loop 1
 //@     invariant 0 <= i && i <= len(a.elements) && 0 <= j && j <= len(b.elements)
 //@     invariant forall p int, q int :: (0 <= p && p < len(a.elements) && 0 <= q && q < len(b.elements) && (p < i || q < j)) ==> a.elements[p] != b.elements[q]
+
+// `a && b` checks b under the capabilities of a merged into the incoming ones: merge is the union.
+//@ func (capabilitySet) merge
+//@   props C15
+//@   requires !isnil(cs) && capOK(cs) && capOK(other)
+//@   results out
+//@   ensures !isnil(out) && capOK(out)
+//@   ensures forall c capability :: capIn(out, c) == (capIn(cs, c) || capIn(other, c))
